@@ -201,7 +201,7 @@ impl Prop for C18 {
         "C18"
     }
     fn cases(&self) -> (u64, u64) {
-        (80_000, 2_000_000)
+        (300_000, 2_000_000)
     }
     fn rule(&self) -> &'static str {
         "choice bytes -> conventional definition (depth <=2) in which up to 5 named items of any \
